@@ -836,8 +836,9 @@ fn step(w: &mut World, op: &Op, st: &mut Stats) -> Result<(), (&'static str, Str
             let (p, q) = ((a + 1) % 3, (a + 2) % 3);
             let (s, c) = (th.sin(), th.cos());
             let e = 4.0 * f64::EPSILON;
+            let es = e * s.abs().max(f64::MIN_POSITIVE).min(1.0).max(1e-300); // sine entries: relative
             let g = |i: usize, j: usize| ccw.data[i * 3 + j];
-            if (g(p, p) - c).abs() > e || (g(q, q) - c).abs() > e || (g(q, p) - s).abs() > e || (g(p, q) + s).abs() > e {
+            if (g(p, p) - c).abs() > e || (g(q, q) - c).abs() > e || (g(q, p) - s).abs() > es || (g(p, q) + s).abs() > es {
                 return Err(("rotation_wrong", format!("rotation_matrix_ccw({:e}, axis {}) does not rotate counter-clockwise by the angle", th, axis)));
             }
             push_m(w, ccw.clone(), MM { r: 3, c: 3, d: ccw.data.v.clone() });
@@ -846,7 +847,29 @@ fn step(w: &mut World, op: &Op, st: &mut Stats) -> Result<(), (&'static str, Str
             need_m!(m);
             let mo = w.mm[*m].clone();
             let src = &w.ms[*m];
-            if has_nan(&mo.d) {
+            let nan_inside = has_nan(&mo.d);
+            if nan_inside && mo.r == mo.c {
+                // NaN is not zero: the triangular predicates have a definite answer
+                st.inc("predicates_with_nan");
+                let mut up = true;
+                let mut lowt = true;
+                for i in 0..mo.r {
+                    for j in 0..mo.c {
+                        if j < i && mo.at(i, j) != 0.0 {
+                            up = false;
+                        }
+                        if j > i && mo.at(i, j) != 0.0 {
+                            lowt = false;
+                        }
+                    }
+                }
+                let gu = catch(|| src.is_upper_triangular()).map_err(|e| ("valid_rejected", format!("is_upper_triangular panicked: {}", e)))?;
+                let gl = catch(|| src.is_lower_triangular()).map_err(|e| ("valid_rejected", format!("is_lower_triangular panicked: {}", e)))?;
+                if gu != up || gl != lowt {
+                    return Err(("predicate_wrong", format!("with NaN entries: is_upper_triangular = {} (expected {}), is_lower_triangular = {} (expected {})", gu, up, gl, lowt)));
+                }
+            }
+            if nan_inside {
                 st.inc("skipped");
                 return Ok(());
             }
@@ -1328,7 +1351,16 @@ fn gen_op(r: &mut Sm, tr: &Tracker, weights: &[u32; 6], p_fault: f64, special: b
                 }
                 Op::Arange { a: Fb(a), b: Fb(b), step: Fb(s) }
             }
-            _ => Op::Rotation { angle: Fb((r.f64() - 0.5) * 8.0 * std::f64::consts::PI), axis: r.below(3) as u8 },
+            _ => {
+                let pi = std::f64::consts::PI;
+                let angle = match r.below(5) {
+                    // special and tiny angles: sin(x) = x is not 0, multiples of pi/2, both signs
+                    0 => *r.pick(&[0.0, -0.0, 1e-9, -1e-9, 1e-12, 3e-8, -1e-15, 1e-300, pi / 2.0, -pi / 2.0, pi, -pi, 2.0 * pi, -2.0 * pi, 4.0 * pi, -4.0 * pi, pi / 4.0, 3.0 * pi]),
+                    1 => (r.f64() - 0.5) * *r.pick(&[1e-3, 1e-6, 1e-8, 1e-10]),
+                    _ => (r.f64() - 0.5) * 8.0 * pi,
+                };
+                Op::Rotation { angle: Fb(angle), axis: r.below(3) as u8 }
+            }
         },
         _ => match r.below(4) {
             0 => Op::Predicates { m },
@@ -1367,7 +1399,8 @@ impl Prop for C15 {
         let (rr, cc) = (r.usize(1, 8), r.usize(1, 8));
         let sym = r.chance(0.15) && rr == cc;
         let mut data: Vec<f64> = (0..rr * cc).map(|_| gen_val(&mut r, special)).collect();
-        if r.chance(0.1) {
+        let tri_nan = rr == cc && rr >= 2 && r.chance(0.04);
+        if r.chance(0.1) || tri_nan {
             // structured: triangular / symmetric / design-like starts for the predicates
             for i in 0..rr {
                 for j in 0..cc {
@@ -1376,6 +1409,11 @@ impl Prop for C15 {
                     }
                 }
             }
+        }
+        if tri_nan {
+            // a lone NaN in the part that should be zero
+            let (i, j) = (1 + r.below(rr as u64 - 1) as usize, 0usize);
+            data[i * cc + j] = f64::NAN;
         }
         if sym {
             for i in 0..rr {
